@@ -537,7 +537,10 @@ class Lowerer:
         fields = []
         m = re.match(r'^std::pair<(.*)>$', key)
         if m:
-            a, b = split_top(m.group(1))
+            parts = split_top(m.group(1))
+            if len(parts) != 2:
+                raise Unsupported('std::pair type %s is not a plain two-argument pair' % key)
+            a, b = parts
             fields = [(self.parse_type(a), 'first'), (self.parse_type(b), 'second')]
             self.note('builtin record model std::pair -> {first,second}')
         elif re.match(r'^std::array<(.*)>$', key):
